@@ -841,9 +841,10 @@ fn on_retained_class(w: &mut World, conn: usize, idx: usize, raw: &[u8], pkt: &P
     }
     let _ = first_time;
     // C17 / C02: retransmission equals first transmission except DUP
-    match &w.reqs[ri].first_tx {
+    match w.reqs[ri].first_tx.clone() {
         None => w.reqs[ri].first_tx = Some(raw.to_vec()),
         Some(first) => {
+            let first = &first;
             let mut a = first.clone();
             let mut b = raw.to_vec();
             a[0] &= !0x08;
@@ -858,6 +859,14 @@ fn on_retained_class(w: &mut World, conn: usize, idx: usize, raw: &[u8], pkt: &P
                         crate::util::hex(raw)
                     ),
                 );
+                if rk == "pub1" {
+                    // C02: "DUP set and otherwise byte-identical content"
+                    w.violate(
+                        "C02",
+                        "retransmission-not-byte-identical/pub1".into(),
+                        format!("tag {tag}: first {} now {}", crate::util::hex(first), crate::util::hex(raw)),
+                    );
+                }
             }
         }
     }
@@ -1511,6 +1520,7 @@ pub fn on_client_consumed(w: &mut World, conn: usize, meta: RxMeta) {
             w.expect = Some(Expect::MaybeInvalid);
         }
         RxMeta::PingResp => {
+            w.conns[conn].pingresp_available_t = None;
             if let Some(t) = w.conns[conn].pingreq_outstanding.take() {
                 w.conns[conn].pingresp_consumed_for = Some(t);
                 w.conns[conn].pingresp_consumed_t = Some(clock::now());
